@@ -22,8 +22,103 @@ REQUIRED = ["exec_split", "partition_independent", "partition_independent_footpr
             "interleaving_independent", "iterations_commute", "noCrossAlias_of",
             "reduction_partition_independent", "reduction_cover_independent", "hull_join_laws",
             "box_extendBy_partition_independent", "dispatch_threshold",
-            "measureArguments_mismatch", "length_mismatch_raises", "inplace_length_mismatch_raises"]
+            "measureArguments_mismatch", "length_mismatch_raises", "inplace_length_mismatch_raises",
+            # audit W1: an ARBITRARY task (split law + swap law => every partition, every order), refutations of the two slips
+            "partition_independent_of_compositional", "ofStep_compositional", "partition_independent_footprint_via_compositional",
+            "badIgnoreStart_refuted", "badScratch_refuted",
+            # audit W5 / W6: the success path of what the driver executes; accessors are injective
+            "applyVectorized_ok", "applyMaskable_ok", "Access.reindex_loc", "applyMaskable_ok_cell",
+            "loc_injective_direct", "loc_injective_masked", "noCrossAlias_fresh_ret", "noCrossAlias_fresh_direct", "noCrossAlias_inplace"]
+# audit W7: the reduction laws for the GENERATED Box::extendBy (Gen/C13Box.lean, regenerated from ImathBox.h on every run)
+REQUIRED_BOX = ["gen_box%d_%s" % (d, n) for d in (2, 3) for n in ("extendByBox_eq", "extendByPoint_eq", "extendBy_joinLaws",
+                "extendByPoint_eq_box", "extendBy_partition_independent", "extendBy_cover_independent")]
 HARNESS = os.path.join(lib.VERIF, "harness", "py", "c20_harness.py")
+EXTRA = os.path.join(lib.VERIF, "harness", "py", "c20_extra.py")
+SCALAR = os.path.join(lib.VERIF, "harness", "py", "c20_scalar.py")
+
+# ---- exact allow-lists (audit W3 / W4): anything not named here must be exercised / must have a scalar reference -----
+# Exports that python cannot reach: the C++ signature mentions an array type for which the module registers no python
+# class, so no argument can be built (or no result returned).  Named one by one; a NEW unreached export fails the check.
+I64_OPS = ["__mul__#3", "__imul__#3", "__div__#3", "__truediv__#3", "__idiv__#3", "__itruediv__#3", "__rmul__#2"]
+ALLOW_UNREACHED = {}
+for _v in ("V2i64", "V3i64", "V4i64"):
+    for _o in I64_OPS:
+        ALLOW_UNREACHED["%sArray.%s" % (_v, _o)] = "takes PyImath::FixedArray<long>: no python class (Int64Array) is registered"
+    ALLOW_UNREACHED[_v + ".__mul__#4"] = "takes PyImath::FixedArray<long>: no python class (Int64Array) is registered"
+    ALLOW_UNREACHED[_v + ".__rmul__#1"] = "takes PyImath::FixedArray<long>: no python class (Int64Array) is registered"
+for _k in ("V3c.cross#1", "V3c.dot#1", "V4c.dot#1"):
+    ALLOW_UNREACHED[_k] = "takes FixedArray<Vec3/Vec4<unsigned char>>: no python class (V3cArray / V4cArray) is registered"
+for _n in ("__div__#1", "__idiv__#1", "__imul__#1", "__itruediv__#1", "__mul__#1", "__rmul__#1", "__truediv__#1"):
+    ALLOW_UNREACHED["Color4cArray2D." + _n] = "takes FixedArray2D<unsigned char>: no python class is registered"
+# rule-based skips (not names): C19's protocol methods and constructors that take no array
+RULE_SKIPS = ("indexing/pickling protocol (property C19)", "indexing/construction protocol (property C19)",
+              "variable-length array protocol (property C19)", "buffer protocol (property C19)", "constructor without array argument", "static/no self")
+# entry points for which NO element-wise scalar reference exists (by Owner.name); everything else must have one
+NOREF_ALLOW = {
+    "QuatfArray.orientToVectors": "hand-written Task (PyImathQuat.cpp QuatArray_OrientToVectors); Quat has no scalar orientToVectors: "
+                                  "partition independence, determinism and length checks only",
+    "QuatdArray.orientToVectors": "as QuatfArray.orientToVectors",
+    "imath.procrustesRotationAndTranslation": "whole-array function (least-squares fit): no element-wise semantics; partition "
+                                              "independence, determinism and length checks only",
+}
+ULP_TOL = 8
+
+# Failures that share one CAUSE are reported under one key (the keys of KNOWN_FINDINGS.jsonl), but only for the overloads
+# / table entries LISTED here: another overload failing for the same cause gets its own key "<cause>:new:<entry>" and is
+# therefore a fresh VIOLATION.
+_VS = ("V2s", "V3s", "V4s")
+_VL = ("V2i64", "V3i64", "V4i64")
+CAUSE_MEMBERS = {
+    "array-raises:no-python-class:FixedArray<long>": set(
+        ["V2i64Array.dot#0", "V2i64Array.dot#1", "V2i64Array.cross#0", "V2i64Array.cross#1", "V2i64Array.length2#0",
+         "V3i64Array.dot#0", "V3i64Array.dot#1", "V3i64Array.length2#0", "V4i64Array.dot#0", "V4i64Array.dot#1", "V4i64Array.length2#0",
+         "V2i64.dot#1", "V2i64.cross#1", "V3i64.dot#1", "V4i64.dot#1"]),
+    "array-raises:no-python-class:FixedArray<Vec3/Vec4<unsigned char>>": set(["V3c.__mul__#4", "V3c.__rmul__#1", "V4c.__mul__#4", "V4c.__rmul__#1"]),
+    "scalar-vs-cxx:Vi64-constructor-through-double": set(["V2i64.__init__(l,l)", "V2i64.__init__(l)", "V3i64.__init__(l,l,l)", "V3i64.__init__(l)",
+                                                          "V4i64.__init__(l,l,l,l)", "V4i64.__init__(l)"]),
+    "scalar-vs-cxx:Vs-Vi64-inplace-division-rejects-own-type": set(["%s.%s(%s,%s)" % (v, m, v, v) for v in _VS + ("V4i64",)
+                                                                    for m in ("__idiv__", "__itruediv__")]),
+    "scalar-vs-cxx:Vs-Vi64-equalWithError-rejects-own-type": set(["%s.%s(%s,%s,%s)" % (v, m, v, v, "s" if v in _VS else "l") for v in _VS + _VL
+                                                                  for m in ("equalWithAbsError", "equalWithRelError")]),
+    "scalar-vs-cxx:V2-constructor-range-check": set(["V2f.__init__(f,f)"]),
+}
+SCALAR_CAUSES = [
+    (r"^V[234]i64\.__init__\(l", "scalar-vs-cxx:Vi64-constructor-through-double"),
+    (r"^V[234](s|i64)\.__i(true)?div__\(V", "scalar-vs-cxx:Vs-Vi64-inplace-division-rejects-own-type"),
+    (r"^V[234](s|i64)\.equalWith(Abs|Rel)Error\(", "scalar-vs-cxx:Vs-Vi64-equalWithError-rejects-own-type"),
+    (r"^V2[fdsi]\.__init__\(", "scalar-vs-cxx:V2-constructor-range-check"),
+]
+
+
+def cause_key(cause, member):
+    """the cause's key for a listed member, a key of its own for anything else"""
+    return cause if member in CAUSE_MEMBERS.get(cause, ()) else "%s:new:%s" % (cause, member)
+
+
+# obligation names (the same string is given to chk.oblige and to chk.fail, so that a failure recorded as an open known
+# finding is tied to the obligation it explains)
+OBL = {
+    "partition": "bitwise partition independence (all partitions, orders, threads)",
+    "nondeterministic": "identical unsplit runs agree",
+    "threshold": "pool used iff length > 200 and caller not a worker",
+    "scalar": "scalar:bit-identical-unless-listed: every element is BIT-IDENTICAL to the scalar binding (any NaN = any NaN); only the entry "
+              "points on the named tolerance list may differ, by at most %d ulp-estimates" % ULP_TOL,
+    "array-raises": "no array operation raises on moderate arguments for which the scalar binding succeeds on every element",
+    "mismatch": "mismatched lengths / dimensions raise", "mismatch-write": "no write before the length check",
+    "mismatch-crash": "mismatched lengths / dimensions do not crash",
+    "model": "Lean model == real module on integer ops (direct/strided/masked, scripted partitions, raise/no-raise, pool used)",
+    "crash": "no crash or hang that the scalar binding does not reproduce",
+    "scalar-vs-cxx": "scalar-vs-cxx: every bound scalar binding of the table returns bit for bit what the C++ library returns",
+}
+# table entries of c20_scalar_ref.cpp for which the python class has no such method / overload (python falls back to
+# another spelling or the operation does not exist for that type): a binding that DISAPPEARS is not on this list and fails
+UNBOUND_OK = set(
+    ["%s.%s(%s,%s)" % (v, m, v, v) for v in ("V2s", "V3s", "V4s", "V2i", "V3i", "V4i", "V2i64", "V3i64", "V4i64", "V2f", "V3f", "V4f", "V2d", "V3d", "V4d")
+     for m in ("__rsub__",)] +
+    ["%s.%s(%s,%s)" % (v, m, v, v) for v in ("V2s", "V3s", "V4s", "V2i64", "V3i64", "V4i64") for m in ("__iadd__", "__isub__", "__imul__")] +
+    ["%s.__imod__(%s,%s)" % (v, v, v) for v in ("V3s", "V3i", "V3i64", "V3f", "V3d")] +
+    ["V2s.__div__(V2s,V2s)", "V2i64.__div__(V2i64,V2i64)", "V3f.__imul__(V3f,M33f)", "V3d.__imul__(V3d,M33d)"] +
+    ["M44%s.%s(M44%s)" % (t, m, t) for t in "fd" for m in ("extractEulerXYZ", "extractEulerZYX", "extractScaling", "extractScalingAndShear")])
 TAG = os.path.basename(pyimath.BDIR)[len("pyimath"):]
 WD = os.path.join(lib.BUILD, "c20" + TAG)
 ULP_TOL = 8
@@ -45,10 +140,10 @@ def build_shim():
     return True, out, o
 
 
-def harness(args, timeout=1800, stdout=None):
+def harness(args, timeout=1800, stdout=None, script=None, prefix=()):
     """run the harness under the python the module was built for; -> (returncode (negative = signal), stdout, stderr)"""
     try:
-        p = subprocess.run([pyimath.PYTHON, HARNESS] + args, env=pyimath.env(), stdout=subprocess.PIPE,
+        p = subprocess.run(list(prefix) + [pyimath.PYTHON, script or HARNESS] + args, env=pyimath.env({"PYTHONMALLOC": "malloc"} if prefix else None), stdout=subprocess.PIPE,
                            stderr=subprocess.PIPE, timeout=timeout, text=True, errors="replace")
         return p.returncode, p.stdout, p.stderr
     except subprocess.TimeoutExpired as ex:
@@ -68,7 +163,7 @@ def last_begun(progress):
     return cur
 
 
-def run_shard(idx, keys, base, events, mm_keys=()):
+def run_shard(idx, keys, base, events, mm_keys=(), script=None):
     """one worker process per shard; a crash (signal) or hang is attributed to the entry point in progress, triaged in
     a guarded re-run (every call first in a forked child), retried in safe mode when the scalar binding crashes too,
     and the shard continues with the remaining entry points."""
@@ -83,7 +178,7 @@ def run_shard(idx, keys, base, events, mm_keys=()):
         opts = dict(base, keys=keys, progress=prog, safe_keys=safe, mm_keys=mm)
         op = os.path.join(WD, "opts%d_%d.json" % (idx, round_))
         json.dump(opts, open(op, "w"))
-        rc, so, se = harness(["run", op, out], timeout=base["worker_timeout"])
+        rc, so, se = harness(["run", op, out], timeout=base["worker_timeout"], script=script)
         if rc == 0:
             return
         bad = last_begun(prog)
@@ -92,7 +187,7 @@ def run_shard(idx, keys, base, events, mm_keys=()):
             # died in the length-mismatch-only part: guarded re-run of that entry point, then go on
             top = os.path.join(WD, "triage%d_%d.json" % (idx, round_))
             json.dump(dict(base, keys=[], mm_keys=[bad], guard=True, progress=None), open(top, "w"))
-            harness(["run", top, out], timeout=base["worker_timeout"])
+            harness(["run", top, out], timeout=base["worker_timeout"], script=script)
             keys, mm = [], mm[mm.index(bad) + 1:]
             continue
         if bad is None or bad not in keys:
@@ -106,6 +201,10 @@ def run_shard(idx, keys, base, events, mm_keys=()):
         # triage in guarded mode
         top = os.path.join(WD, "triage%d_%d.json" % (idx, round_))
         json.dump(dict(base, keys=[bad], guard=True, progress=None, safe_keys=safe, mm_keys=[]), open(top, "w"))
+        if script is not None:          # the extra harness has no guarded mode: report the crash, go on
+            events.append({"extra_crash": bad, "rc": rc, "stderr": se[-600:]})
+            keys = rest
+            continue
         rc2, so2, se2 = harness(["run", top, out], timeout=base["worker_timeout"])
         if rc2 != 0:
             events.append({"triage_failed": bad, "rc": rc2, "stderr": se2[-800:]})
@@ -116,12 +215,76 @@ def run_shard(idx, keys, base, events, mm_keys=()):
             keys = rest
 
 
+def run_drd(chk, shim, lst, keys, nproc):
+    """thorough tier: the hand-written-Task owners and the core operators once each at L = 257 on 8 std::threads under
+    `valgrind --tool=drd` (audit W8): a data race inside *::execute is reported even when the values happen to agree"""
+    import shutil
+    if not shutil.which("valgrind"):
+        chk.extra["drd"] = "valgrind not installed: race-detector pass not run"
+        return
+    byk = {e["key"]: e for e in lst["entries"]}
+    keys = [k for k in keys if k in byk]
+    nsh = max(1, min(nproc, 12, (len(keys) + 15) // 16))
+    t0 = time.time()
+
+    def one(i):
+        ks = keys[i::nsh]
+        op = os.path.join(WD, "drd_opts%d.json" % i)
+        logf = os.path.join(WD, "drd%d.log" % i)
+        json.dump({"shim": shim, "seed": chk.seed, "keys": ks, "cxx2py": lst["cxx2py"], "entries": [byk[k] for k in ks]}, open(op, "w"))
+        try:
+            p = subprocess.run(["valgrind", "--tool=drd", "--num-callers=16", "--log-file=" + logf, pyimath.PYTHON, HARNESS, "drd", op],
+                               env=pyimath.env({"PYTHONMALLOC": "malloc", "POOLSHIM_NO_BARRIER": "1"}), stdout=subprocess.PIPE, stderr=subprocess.PIPE,
+                               timeout=3000, text=True, errors="replace")
+            return p.returncode, p.stdout, p.stderr, logf
+        except subprocess.TimeoutExpired:
+            return 124, "", "timeout", logf
+    with ThreadPoolExecutor(max_workers=nsh) as ex:
+        res = list(ex.map(one, range(nsh)))
+    ran, disp, blocks, aborted = 0, 0, [], []
+    for rc, so, se, logf in res:
+        ran += se.count("DRD-END")
+        m = re.search(r'"drd_dispatching_entry_points": (\d+)', so)
+        disp += int(m.group(1)) if m else 0
+        if rc != 0 or not m:
+            aborted.append({"rc": rc, "stderr": se[-400:]})
+        try:
+            txt = open(logf, errors="replace").read()
+        except OSError:
+            txt = ""
+        for b in re.split(r"\n==\d+== \n", txt):
+            if "Conflicting" in b:
+                blocks.append(re.sub(r"==\d+== ", "", b)[:1500])
+    inexec = [b for b in blocks if "execute" in b]
+    chk.extra["drd"] = {"entry_points_run_under_drd": ran, "of_which_dispatched_to_8_threads": disp, "conflicting_access_reports": len(blocks),
+                        "inside_execute": len(inexec), "wall_s": round(time.time() - t0, 1), "aborted_shards": aborted[:3],
+                        "first_reports_outside_execute": blocks[:2] if not inexec else None}
+    okd = not inexec and not aborted and disp > 0
+    chk.oblige("drd: %d entry points, 8 std::threads each, under valgrind --tool=drd: no conflicting access inside *::execute" % ran,
+               "correspondence", okd, None if okd else {"reports": len(inexec), "aborted": aborted[:2]})
+    seen = set()
+    for b in inexec:
+        m = re.search(r"(?:by|at) 0x[0-9A-F]+: (\S*execute[^\n]*)", b)
+        fn = (m.group(1) if m else "execute").split(" (")[0][:120]
+        if fn in seen:
+            continue
+        seen.add(fn)
+        chk.fail("drd", "drd:race-in:" + fn, "valgrind --tool=drd reports conflicting accesses by two worker threads inside " + fn, {"report": b}, True)
+    if aborted:
+        chk.fail("drd", "drd:run", "the race-detector pass did not complete", {"shards": aborted[:3]}, False)
+
+
 def run(chk):
     chk.trusted = ["Lean 4.33 kernel; axioms propext, Classical.choice, Quot.sound at most",
                    "hand model Model/Dispatch.lean of dispatchTask / accessors / execute loops / ExtendByTask, tied by the "
-                   "scripted-pool harness and by drv_dispatch == real module on integer ops",
-                   "harness/py/poolshim.cpp (scripted WorkerPool, public API only), harness/py/c20_harness.py, ctypes",
-                   "cmake/ninja/g++ building the real module from the current tree; CPython 3.11 + Boost.Python 1.83"]
+                   "scripted-pool harness and by drv_dispatch == real module on integer ops (binary arithmetic, comparisons, unary "
+                   "minus, 3-argument clamp, Box.extendBy through the GENERATED extendBy of Gen/C13Box.lean)",
+                   "translator harness/sym (Gen/C13Box.lean regenerated from ImathBox.h on every run, TV as in C13)",
+                   "harness/py/poolshim.cpp (scripted WorkerPool, public API only), harness/py/c20_harness.py, c20_extra.py, ctypes",
+                   "harness/py/c20_scalar_ref.cpp: the table (python class, method, argument types) -> C++ library expression (1,292 "
+                   "entries) compiled against the current headers; it states which library function each scalar binding stands for",
+                   "cmake/ninja/g++ building the real module from the current tree; CPython 3.11 + Boost.Python 1.83; libm (powf/pow as "
+                   "the reference of the array `**` operators)"]
     chk.assumptions = [
         "real concurrency is OBSERVED, not proved: the threaded mode runs every range on its own std::thread and compares "
         "bitwise; data-race freedom is argued from NoCrossAlias (disjoint footprints of distinct iterations, theorem "
@@ -130,12 +293,24 @@ def run(chk):
         "vectorised body and the scalar epilogue the compiler generates for one loop); counted in nan_bits_only_differences",
         "integer division/modulo by zero and INT_MIN/-1 (C++ undefined behaviour, SIGFPE) and shift counts >= width are "
         "excluded from the generated arguments",
-        "scalar bindings are compared with the C++ library by the per-type properties (C04..C17), not here"]
-    chk.rule = ("every overload found in the Boost.Python docstrings with a FixedArray argument or result; arguments generated per "
-                "C++ type from a PRNG seeded by VERIF_SEED and the entry-point name: lengths 0,1,7,199,200,201,257,1000; direct and "
-                "masked presentations of every array argument (all 2^k combinations for k<=3), the same object as self and "
+        "the element-wise reference of the module functions on FloatArray is the scalar binding evaluated in double (python floats "
+        "select the double overload): those entry points, and QuatArray ^ / dot / euclideanInnerProduct (another summation order than "
+        "the scalar `^`), are on the NAMED tolerance list (8 ulp-estimates, non-finite results not compared); every other entry point "
+        "must be bit-identical to the scalar binding",
+        "scalar bindings vs the C++ library: the table covers the scalar counterparts of the vectorised operations (Vec2/3/4, "
+        "Matrix22/33/44, Quat, Box2/3, Color3/4, Euler, Frustum, FrustumTest, Line3, Plane3, module functions); the -O3 module and the "
+        "-O1 -ffp-contract=off reference are expected to agree bit for bit (no FMA / fast-math in either); any NaN equals any NaN",
+        "reductions (Box.extendBy(array)): the ACI laws are proved over a LINEAR order; IEEE NaN coordinates are outside (extendBy is "
+        "not commutative there: kernel-checked example in Props/C20Box.lean); the model tie uses integer boxes",
+        "drd (thorough tier) sees the schedules it is shown: a fixed list of entry points, one 8-thread run each"]
+    chk.rule = ("every overload found in the Boost.Python docstrings whose C++ signature mentions FixedArray / FixedArray2D / FixedMatrix / "
+                "StringArrayT / FixedVArray (exact allow-list for the rest); arguments generated per "
+                "C++ type from a PRNG seeded by VERIF_SEED and the entry-point name: lengths 0,1,7,199,200,201,257,1000; direct, "
+                "masked, STRIDED (component view of a composite array) and masked-on-strided presentations of every array argument "
+                "(all 2^k direct/masked combinations for k<=3, each argument in turn strided and strided-masked), the same object as self and "
                 "argument; datasets `nice` (moderate non-zero values) and `edge` (zeros, negatives, extremes, inf, nan, type "
-                "min/max); partitions: single range, 2-way cuts at 0,1,199,200,201,len/2,len-1,len, reversed 2-way, 3-way sets "
+                "min/max, and at fixed positions of every edge array the whole-element failure inputs: zero vector, denormal-only, "
+                "overflowing, unit axis, all-equal, -0); partitions: single range, 2-way cuts at 0,1,199,200,201,len/2,len-1,len, reversed 2-way, 3-way sets "
                 "around 199..201 in two orders, random 4/9/16-way in random order, threaded 2-/3-/8-way. non-trivial = runs with "
                 "a pool installed")
     t0 = time.time()
@@ -153,9 +328,18 @@ def run(chk):
     if not ok:
         chk.fail("build:pyimath", "build:pyimath", "the imath python module does not build from the current tree",
                  {"output": log[-3000:]}, False)
+    # Gen/C13Box.lean (Box::extendBy as extracted from the CURRENT ImathBox.h) is what Props/C20Box.lean and the driver's
+    # `boxn` command are about: regenerate it here, exactly as the C13 check does
+    import troute
+    bins = troute.build_extractors(chk, [dict(name="sym_c13", source="sym/sym_c13.cpp", half=True)])
+    if bins.get("sym_c13"):
+        troute.regenerate(chk, bins["sym_c13"], "c13")
+        troute.tv(chk, bins["sym_c13"], "c13", 64)
     okth, out = chk.check_theorems("ImathVerif.Props.C20", required=REQUIRED, extra_targets=["drv_dispatch"])
+    okbx, outbx = chk.check_theorems("ImathVerif.Props.C20Box", required=REQUIRED_BOX)
     if chk.thorough:
         chk.leanchecker("ImathVerif.Props.C20")
+        chk.leanchecker("ImathVerif.Props.C20Box")
     driver = os.path.join(lib.LEAN, ".lake", "build", "bin", "drv_dispatch")
     chk.oblige("build:drv_dispatch", "build", os.path.exists(driver))
     if not ok:
@@ -166,6 +350,13 @@ def run(chk):
         chk.fail("build:poolshim", "build:poolshim", "the scripted WorkerPool does not compile/link against the current "
                  "PyImathTask.h: the public WorkerPool interface changed", {"output": o[-3000:]}, False)
         return
+
+    okr, sref, orf = lib.cxx_build("c20_scalar_ref" + TAG, ["py/c20_scalar_ref.cpp"] + [os.path.join(lib.REPO, "src", "Imath", f) for f in
+                                   ("ImathColorAlgo.cpp", "ImathMatrixAlgo.cpp", "ImathFun.cpp", "ImathRandom.cpp", "half.cpp")])
+    chk.oblige("build:c20_scalar_ref(current headers and sources)", "build", okr, None if okr else orf[-1500:])
+    if not okr:
+        chk.fail("build:c20_scalar_ref", "build:c20_scalar_ref", "the C++ reference table of the scalar bindings does not compile against the "
+                 "current tree", {"compiler_errors": [l for l in orf.split("\n") if "error" in l][:12]}, False)
 
     # ---- source-level tie of the threshold constant ---------------------------------------------------
     src = open(os.path.join(lib.REPO, "src", "python", "PyImath", "PyImathTask.cpp")).read()
@@ -179,33 +370,58 @@ def run(chk):
 
     # ---- enumerate ---------------------------------------------------------------------------------------
     rc, so, se = harness(["list"], timeout=300)
-    if rc != 0:
-        chk.oblige("enumerate entry points", "correspondence", False, se[-800:])
-        chk.fail("enumerate", "enumerate", "cannot import/introspect the built module", {"stderr": se[-2000:], "rc": rc}, False)
+    rcx, sox, sex = harness(["list"], timeout=300, script=EXTRA)
+    if rc != 0 or rcx != 0:
+        chk.oblige("enumerate entry points", "correspondence", False, (se + sex)[-800:])
+        chk.fail("enumerate", "enumerate", "cannot import/introspect the built module", {"stderr": (se + sex)[-2000:], "rc": [rc, rcx]}, False)
         return
     lst = json.loads(so)
+    xlst = json.loads(sox)
     entries = lst["entries"]
+    xentries = xlst["entries"]
     todo = [e for e in entries if not e["skip"]]
-    skipped = collections.Counter(e["skip"] for e in entries if e["skip"])
-    chk.extra["entry_points"] = {"overloads_in_module": lst["overloads_total"], "without_array_argument_or_result": lst["non_vectorised"],
-                                 "vectorised_discovered": len(entries), "exercisable": len(todo),
-                                 "skipped": dict(skipped)}
-    chk.oblige("enumerate entry points (>= 1500 vectorised overloads exercisable)", "correspondence", len(todo) >= 1500,
-               {"exercisable": len(todo)})
+    xtodo = [e for e in xentries if not e["skip"]]
+    skipped = collections.Counter(e["skip"] for e in entries + xentries if e["skip"])
+    # every overload whose C++ signature mentions an array-like type must be: exercised, a C19 protocol method (rule),
+    # or NAMED in ALLOW_UNREACHED
+    known = set(e["key"] for e in entries) | set(e["key"] for e in xentries)
+    handled = set(e["key"] for e in todo + xtodo)
+    frombuf = [k for k in lst.get("arraylike_keys", []) if k not in known and re.match(r"^imath\.\w+ArrayFromBuffer#\d+$", k)]
+    skipped["buffer protocol (property C19)"] = len(frombuf)
+    unseen = sorted(k for k in lst.get("arraylike_keys", []) if k not in known and k not in frombuf)
+    unlisted = sorted(e["key"] + ": " + e["skip"] for e in entries + xentries
+                      if e["skip"] and e["skip"] not in RULE_SKIPS and e["key"] not in ALLOW_UNREACHED and e["key"] not in handled)
+    stale = sorted(k for k in ALLOW_UNREACHED if k not in set(e["key"] for e in entries + xentries if e["skip"]))
+    chk.extra["entry_points"] = {"overloads_in_module": lst["overloads_total"], "overloads_mentioning_an_array_type": len(lst.get("arraylike_keys", [])),
+                                 "1-D FixedArray overloads": len(entries), "2-D / matrix / string / variable-array / sampler overloads": len(xentries),
+                                 "exercisable": len(todo) + len(xtodo), "skipped_by_rule(C19 protocol etc.)": {k: v for k, v in skipped.items() if k in RULE_SKIPS},
+                                 "unreachable_from_python(named allow-list)": {k: ALLOW_UNREACHED[k] for k in sorted(ALLOW_UNREACHED) if k not in stale}}
+    okl = not unseen and not unlisted and not stale and len(todo) >= 1500
+    chk.oblige("enumerate: every exported overload that mentions an array type is exercised, a C19 protocol method, or on the named "
+               "allow-list of %d exports python cannot reach" % len(ALLOW_UNREACHED), "correspondence", okl,
+               None if okl else {"not_classified": unseen[:10], "skipped_but_not_on_the_allow_list": unlisted[:10], "allow_list_entries_no_longer_skipped": stale[:10],
+                                 "exercisable": len(todo)})
+    if unseen or unlisted:
+        chk.fail("enumerate", "enumerate:unreached-export", "exported array operations that the harness does not reach and that are not on the "
+                 "named allow-list: " + "; ".join((unseen + unlisted)[:6]), {"not_classified": unseen[:40], "skipped": unlisted[:40]}, False)
+    if stale:
+        chk.fail("enumerate", "enumerate:stale-allow-list", "allow-list names exports that are no longer skipped (remove them): " + ", ".join(stale[:8]), {"stale": stale}, False)
     if len(todo) < 1500:
         chk.fail("enumerate", "enumerate:too-few", "introspection found only %d exercisable vectorised overloads" % len(todo), {}, False)
 
     # ---- select ------------------------------------------------------------------------------------------
     core = [e["key"] for e in todo if e["core"]]
-    others = sorted(e["key"] for e in todo if not e["core"])
+    always = sorted(e["key"] for e in todo if e.get("always") and not e["core"])
+    others = sorted(e["key"] for e in todo if not e["core"] and not e.get("always"))
     if chk.thorough:
-        sel = core + others
+        sel = core + always + others
         Q = 1
     else:
         Q = 4
-        sel = core + [k for i, k in enumerate(others) if i % Q == chk.seed % Q]
+        sel = core + always + [k for i, k in enumerate(others) if i % Q == chk.seed % Q]
     chk.extra["selection"] = {"core_entry_points(all partitions, every tier)": len(core),
-                              "other_entry_points_this_run": len(sel) - len(core), "of": len(others),
+                              "owners_of_hand_written_Task_structs(every run, reduced partitions in quick)": len(always),
+                              "other_entry_points_this_run": len(sel) - len(core) - len(always), "of": len(others),
                               "round_robin": "index %% %d == seed %% %d" % (Q, Q) if Q > 1 else "all"}
     base = {"shim": shim, "seed": chk.seed, "full": bool(chk.thorough), "core_full": True,
             "threaded_reps": 3 if chk.thorough else 1, "ulp_tol": ULP_TOL, "driver": driver,
@@ -226,6 +442,35 @@ def run(chk):
         for f in futs:
             f.result()
     chk.extra["harness_wall_s"] = round(time.time() - t1, 1)
+
+    if chk.thorough:
+        run_drd(chk, shim, lst, core + always, nproc)
+
+    # ---- part 2: 2-D arrays, matrices, string arrays, variable-array constructors, samplers (all of them, every tier) ----
+    t2 = time.time()
+    xkeys = [e["key"] for e in xtodo]
+    nx = max(1, min(6, nproc))
+    with ThreadPoolExecutor(max_workers=nx) as ex:
+        futs = [ex.submit(run_shard, 100 + i, xkeys[i::nx], base, events, (), EXTRA) for i in range(nx) if xkeys[i::nx]]
+        for f in futs:
+            f.result()
+    chk.extra["extra_harness_wall_s"] = round(time.time() - t2, 1)
+    sel = sel + xkeys
+
+    # ---- part 3: scalar bindings against the C++ library ---------------------------------------------------
+    t3 = time.time()
+    scal = None
+    if okr:
+        sout = os.path.join(WD, "scalar.json")
+        rcs, sos, ses = harness([sref, str(chk.seed), str(200 if chk.thorough else 24), sout], timeout=1200, script=SCALAR)
+        try:
+            scal = json.load(open(sout))
+        except Exception:
+            scal = None
+        if scal is None:
+            chk.oblige("scalar bindings == C++ library: harness ran", "correspondence", False, {"rc": rcs, "stderr": ses[-800:]})
+            chk.fail("scalar-vs-cxx", "scalar-vs-cxx:run", "the scalar-binding comparison did not run (rc %s)" % rcs, {"stderr": ses[-2000:]}, False)
+    chk.extra["scalar_vs_cxx_wall_s"] = round(time.time() - t3, 1)
 
     # ---- model tie -----------------------------------------------------------------------------------------
     mop = os.path.join(WD, "model_opts.json")
@@ -313,29 +558,55 @@ def run(chk):
     # violations found by the harness: one per (entry point, argument kinds); the kinds of failure are listed
     byk = collections.Counter()
     grouped = collections.OrderedDict()
+    def no_class_cause(v):
+        """array-raises: 'No to_python (by-value) converter found for C++ type: X' -> one key per missing python class"""
+        m = re.search(r"converter found for C\+\+ type: ([^'\"\]]+)", json.dumps(v.get("replay", {}).get("exception", "")) + v.get("what", ""))
+        if not m:
+            return None
+        t = m.group(1).strip().rstrip(")").strip()
+        if "unsigned char" in t:
+            return "array-raises:no-python-class:FixedArray<Vec3/Vec4<unsigned char>>"
+        return "array-raises:no-python-class:" + t.replace("PyImath::", "").replace(" ", "")
+    noclass = collections.OrderedDict()
+    rest_viols = []
     for v in viols:
+        ck = no_class_cause(v) if v["kind"] == "array-raises" else None
+        if ck:
+            byk[v["kind"]] += 1
+            noclass.setdefault(cause_key(ck, v["replay"].get("entry", "?")), []).append(v)
+        else:
+            rest_viols.append(v)
+    for ck, vs in noclass.items():
+        names = sorted(set(v["replay"].get("entry", "?") for v in vs))
+        chk.fail(OBL["array-raises"], ck, "%d exported array operations can never succeed from python: their result type has no registered "
+                 "python class (%s); the scalar bindings succeed on every element. Affected: %s" % (len(names), vs[0]["what"][:160], ", ".join(names)),
+                 {"affected": names, "first": vs[0]["replay"]}, True)
+    for v in rest_viols:
         byk[v["kind"]] += 1
-        k = v["key"] if (v["kind"] == "model" or v["key"].startswith("length-mismatch-not-raised:")) else v["key"].split(":", 1)[1]
+        k = v["key"] if (v["kind"] == "model" or v["key"].startswith(("length-mismatch-not-raised:", "array-raises:", "mismatch-crash:"))) else v["key"].split(":", 1)[1]
         grouped.setdefault(k, []).append(v)
     for k, vs in grouped.items():
         kinds_ = sorted(set(v["kind"] for v in vs))
-        chk.fail("harness:" + "+".join(kinds_), k, "; ".join("%s: %s" % (v["kind"], v["what"]) for v in vs[:4]),
+        chk.fail([OBL.get(x, "harness:" + x) for x in kinds_], k, "; ".join("%s: %s" % (v["kind"], v["what"]) for v in vs[:4]),
                  {v["kind"]: v["replay"] for v in vs}, True)
     # crashes
     consistent, inconsistent = [], []
     for c in crashes:
         (consistent if c.get("scalar_signal") == c.get("signal") else inconsistent).append(c)
     for c in inconsistent:
-        chk.fail("harness:crash", "crash:%s|%s" % (c["key"], c.get("kinds")),
+        chk.fail(OBL["crash"], "crash:%s|%s" % (c["key"], c.get("kinds")),
                  "the array operation kills the interpreter (signal %s); the scalar binding does not" % c.get("signal"), c, True)
     crashed_keys = set(c["key"] for c in crashes)
     for ev in events:
         if "hang" in ev:
-            chk.fail("harness:hang", "hang:" + ev["hang"], "the call does not return (worker timed out)", ev, True)
+            chk.fail(OBL["crash"], "hang:" + ev["hang"], "the call does not return (worker timed out)", ev, True)
         elif "fatal" in ev or "triage_failed" in ev:
             chk.fail("harness:worker", "worker:%s" % ev.get("triage_failed", ev.get("shard")), "harness worker failed", ev, False)
+        elif "extra_crash" in ev:
+            chk.fail(OBL["crash"], "crash:" + ev["extra_crash"], "the interpreter dies (rc %s) while this 2-D / matrix / string entry point is "
+                     "exercised" % ev.get("rc"), ev, True)
         elif ev.get("entry") and ev["entry"] not in crashed_keys and ev.get("rc") not in (0, None):
-            chk.fail("harness:crash", "crash:" + ev["entry"], "worker died (rc %s) while exercising this entry point; the guarded "
+            chk.fail(OBL["crash"], "crash:" + ev["entry"], "worker died (rc %s) while exercising this entry point; the guarded "
                      "re-run did not reproduce it" % ev.get("rc"), ev, True)
     for h in herr:
         chk.fail("harness:internal", "harness-error:" + h["key"], "the harness raised while exercising this entry point", h, False)
@@ -344,30 +615,97 @@ def run(chk):
     missing = [k for k in sel if k not in eps]
     chk.oblige("every selected entry point exercised", "correspondence", not missing, missing[:10] or None)
     if missing:
-        chk.fail("harness:coverage", "not-exercised", "%d selected entry points were not exercised" % len(missing), {"first": missing[:20]}, False)
+        chk.fail("every selected entry point exercised", "not-exercised", "%d selected entry points were not exercised" % len(missing), {"first": missing[:20]}, False)
     chk.oblige("the scripted pool really was used (dispatches intercepted > 0, no script fallbacks)", "correspondence",
                ndisp > 0 and sum(s["fallbacks"] for s in stats) == 0, {"dispatches": ndisp})
     if ndisp == 0:
-        chk.fail("harness:pool", "pool-not-used", "no dispatch was intercepted: WorkerPool::setCurrentPool has no effect", {}, False)
-    for kind, name in (("partition", "bitwise partition independence (all partitions, orders, threads)"),
-                       ("nondeterministic", "identical unsplit runs agree"),
-                       ("threshold", "pool used iff length > 200 and caller not a worker"),
-                       ("scalar", "every element equals the scalar binding (identical, or within %d ulp-estimates)" % ULP_TOL),
-                       ("mismatch", "mismatched lengths raise"), ("mismatch-write", "no write before the length check"),
-                       ("mismatch-crash", "mismatched lengths do not crash")):
+        chk.fail("the scripted pool really was used", "pool-not-used", "no dispatch was intercepted: WorkerPool::setCurrentPool has no effect", {}, False)
+    for kind in ("partition", "nondeterministic", "threshold", "scalar", "array-raises", "mismatch", "mismatch-write", "mismatch-crash"):
+        name = OBL[kind]
         chk.oblige(name, "correspondence", byk.get(kind, 0) == 0, {"violating entry-point/kind combinations": byk.get(kind, 0)} if byk.get(kind) else None)
-    chk.oblige("no crash or hang that the scalar binding does not reproduce", "correspondence",
+    chk.oblige(OBL["crash"], "correspondence",
                not inconsistent and not any("hang" in ev for ev in events))
+
+    # ---- scalar reference: exact allow-list of entry points without one; named tolerance list -----------------
+    def base_name(k):
+        return k.split("#")[0]
+    noref_bad, noref_ok, allraise = {}, {}, []
+    for e in done:
+        r = e.get("scalar_ref")
+        if e.get("crashed_signal") or e["key"] in crashed_keys:
+            continue
+        if r is None or str(r).startswith("none"):
+            if e.get("runs", 0) and e.get("raises", 0) >= e.get("runs", 0) - e.get("partitions", 0) and r is None:
+                continue        # every call raises: reported by `array-raises` / identical under every partition
+            (noref_ok if base_name(e["key"]) in NOREF_ALLOW else noref_bad)[e["key"]] = str(r)
+        elif e.get("scalar_checked", 0) == 0 and e.get("scalar_all_raise"):
+            allraise.append(e["key"])
+    chk.extra["no_scalar_reference(allow-listed)"] = {"entries": sorted(noref_ok), "reasons": NOREF_ALLOW}
+    chk.oblige("scalar:no-reference is a subset of the named allow-list (%d names): every other exercised entry point has an element-wise "
+               "scalar reference" % len(NOREF_ALLOW), "correspondence", not noref_bad and not allraise,
+               None if not (noref_bad or allraise) else {"without_reference": dict(list(noref_bad.items())[:12]), "scalar_raises_for_every_element": allraise[:12]})
+    for k, r in sorted(noref_bad.items())[:40]:
+        chk.fail("scalar:no-reference", "no-scalar-reference:" + base_name(k), "entry point %s was exercised but nothing was compared element-wise (%s) "
+                 "and it is not on the allow-list" % (k, r), {"entry": k, "scalar_ref": r, "signature": eps[k]["sig"]}, False)
+    for k in allraise[:40]:
+        chk.fail("scalar:no-reference", "no-scalar-reference:" + base_name(k), "the scalar binding raises for EVERY element of %s (%s): nothing was compared"
+                 % (k, eps[k].get("scalar_raise_example")), {"entry": k, "signature": eps[k]["sig"]}, True)
+    tol = {}
+    for e in done:
+        if e.get("tolerance_listed"):
+            d = tol.setdefault(e["tolerance_listed"][:90], {"entry_points": 0, "elements": 0, "bit_identical": 0, "max_ulp_estimate": 0})
+            d["entry_points"] += 1
+            d["elements"] += e["scalar_checked"]
+            d["bit_identical"] += e["scalar_exact"]
+            d["max_ulp_estimate"] = max(d["max_ulp_estimate"], e["scalar_ulp_max"] if e["scalar_ulp_max"] < 10 ** 9 else 0)
+    chk.extra["tolerance_list(used by)"] = tol
+    chk.extra["exact_entry_points"] = {"entry_points": sum(1 for e in done if e.get("scalar_checked") and not e.get("tolerance_listed")),
+                                       "elements": sum(e["scalar_checked"] for e in done if not e.get("tolerance_listed")),
+                                       "bit_identical": sum(e["scalar_exact"] for e in done if not e.get("tolerance_listed")),
+                                       "of_which_nan_payload_or_sign_only": sum(e.get("scalar_nan_bits_only", 0) for e in done),
+                                       "elements_for_which_the_scalar_binding_raises(array returns)": sum(e.get("scalar_raised_elements", 0) for e in done),
+                                       "entry_points_scalar_checked_on_the_edge_dataset": sum(1 for e in done if "edge" in (e.get("scalar_datasets") or []))}
+
+    # ---- scalar bindings == C++ library ---------------------------------------------------------------------
+    if scal is not None:
+        unb = sorted(set(u.split("  [")[0] for u in scal["unbound"]))
+        gone = [u for u in unb if u not in UNBOUND_OK]
+        never = sorted(k for k, v in scal["per_entry"].items() if v["compared"] == 0 and v["raise_both"] == 0)
+        mm = collections.OrderedDict()
+        for m in scal["mismatch"]:
+            mm.setdefault(m["key"], []).append(m)
+        chk.extra["scalar_vs_cxx"] = {"table_entries": scal["entries_in_table"], "bound_in_python": len(scal["per_entry"]), "cases": scal["cases"],
+                                      "both_raise": scal["raise_both"], "results_containing_nan": scal["nan_canonicalised"],
+                                      "table_entries_without_python_overload(allow-listed)": len(unb) - len(gone), "mismatching_entries": len(mm)}
+        chk.count(scal["cases"], scal["cases"])
+        chk.oblige(OBL["scalar-vs-cxx"] + " (%d entries, %d cases; raise must match throw)" % (len(scal["per_entry"]), scal["cases"]), "correspondence",
+                   not mm and scal["ref_lines"] == scal["cases"] and scal["cases"] > 10000, {"mismatching": list(mm)[:12]} if mm else None)
+        chk.oblige("scalar-vs-cxx: no scalar binding of the table has disappeared (unbound entries are a subset of the named list of %d)" % len(UNBOUND_OK),
+                   "correspondence", not gone, gone[:12] or None)
+        bycause = collections.OrderedDict()
+        for k, ms in mm.items():
+            ck = next((cause_key(c, k) for rx, c in SCALAR_CAUSES if re.match(rx, k)), "scalar-vs-cxx:" + k)
+            bycause.setdefault(ck, []).append((k, ms))
+        for ck, items in bycause.items():
+            k, ms = items[0]
+            m = ms[0]
+            chk.fail(OBL["scalar-vs-cxx"], ck, "%s: %s; python %s, C++ %s (args %s)%s" % (k, m["what"], str(m["python"])[:120], str(m["cxx"])[:120], m["args"],
+                                                                                     ("; same cause: " + ", ".join(x[0] for x in items[1:])) if len(items) > 1 else ""),
+                     {"first": m, "entries": [x[0] for x in items], "mismatching_cases": sum(len(x[1]) for x in items)}, True)
+        for u in gone:
+            chk.fail("scalar-vs-cxx", "scalar-vs-cxx:unbound:" + u, "the python class has no (longer a) binding for %s" % u, {"entry": u}, False)
+        if scal["ref_lines"] != scal["cases"] or scal["cases"] <= 10000:
+            chk.fail("scalar-vs-cxx", "scalar-vs-cxx:run", "the reference binary answered %d of %d cases" % (scal["ref_lines"], scal["cases"]), {}, False)
+        chk.sample({"scalar_vs_cxx_entry": "V3f.cross(V3f,V3f)", **scal["per_entry"].get("V3f.cross(V3f,V3f)", {})})
 
     # model tie
     okm = rcm == 0 and model is not None and model["disagree"] == 0 and model["cases"] > 500
-    chk.oblige("Lean model == real module on integer ops (direct/strided/masked, scripted partitions, raise/no-raise, pool used)",
-               "correspondence", okm, model if model else {"rc": rcm, "stderr": sem[-600:]})
+    chk.oblige(OBL["model"], "correspondence", okm, model if model else {"rc": rcm, "stderr": sem[-600:]})
     chk.extra["model_tie"] = model
     if model is None:
-        chk.fail("model-tie", "model:run", "the model/real comparison did not run", {"rc": rcm, "stderr": sem[-1500:]}, False)
+        chk.fail(OBL["model"], "model:run", "the model/real comparison did not run", {"rc": rcm, "stderr": sem[-1500:]}, False)
     elif model["cases"] <= 500:
-        chk.fail("model-tie", "model:few", "too few model cases", model, False)
+        chk.fail(OBL["model"], "model:few", "too few model cases", model, False)
     if model:
         chk.count(model["cases"], model["cases"])
 
